@@ -247,6 +247,28 @@ def run(prog: Program, res: Result) -> None:  # noqa: PLR0912, PLR0915
             res.ok("C15.R1", f"{eff.file}:{eff.node.lineno} _extract_from_filters", what, "pair extracted")
         else:
             res.fail("C15.R1", file=eff.file, line=eff.node.lineno, qualname="_extract_from_filters", construct=f"pair {pair[0]} | {pair[1]} not extracted", message=f"{label}: at run time the first filter of `{pair[1]}` can receive the literal `{pair[0]}` and look it up in the catalog, but the extractor never offers that operand to that filter's message()", what=what)
+    # a tail filter receives the branch's literal only when the branch has no filters of its own (TernaryFilteredExpression.evaluate
+    # applies left's own filters / self.filters first): the offer to the tail filters is guarded by the emptiness of exactly that list
+    own_list = {"expression.left.left": "expression.left.filters", "expression.alternative": "expression.filters"}
+    for c in ast.walk(eff.node):
+        if not (isinstance(c, ast.Call) and isinstance(c.func, ast.Name) and c.func.id in helpers_ and c.func.id != eff.name):
+            continue
+        hp = helpers_[c.func.id].params()
+        bound = {hp[i]: a for i, a in enumerate(c.args) if i < len(hp)}
+        bound.update({k.arg: k.value for k in c.keywords if k.arg})
+        lp = next((p_ for p_ in hp if p_ in ("left", "operand")), None)
+        fp = next((p_ for p_ in hp if "filter" in p_), None)
+        if lp not in bound or fp not in bound or norm(bound[fp]) != "expression.tail_filters" or norm(bound[lp]) not in own_list:
+            continue
+        need = own_list[norm(bound[lp])]
+        atoms_: list[tuple[str, str]] = []
+        for t_, pol_ in _path_condition(eff.module, eff.node, c):
+            atoms_ += _atoms(t_, pol_)
+        what = f"_extract_from_filters offers `{norm(bound[lp])}` to the tail filters only when `{need}` is empty"
+        if (need, "falsy") in atoms_:
+            res.ok("C15.R1", f"{eff.file}:{c.lineno} _extract_from_filters", what, "guarded by the emptiness of the branch's own filter list")
+        else:
+            res.fail("C15.R1", file=eff.file, line=c.lineno, qualname="_extract_from_filters", construct=f"tail-filter offer of {norm(bound[lp])} not guarded by `not {need}`", message=f"the first tail filter receives the literal `{norm(bound[lp])}` at run time exactly when `{need}` is empty (the branch's own filters come first), but the extractor offers it under {[o + ':' + f for o, f in atoms_]}: a lookup made when that list is empty is not extracted, or one is extracted that the render never makes", what=what)
     # every registered translatable filter class defines message(); every TranslatableTag node defines messages()
     tf = prog.resolve_abs("liquid2.messages.TranslatableFilter")
     tt = prog.resolve_abs("liquid2.messages.TranslatableTag")
